@@ -261,6 +261,35 @@ def r05_2(ctx, prog, crate):
         cv = w.prov.op_src(pc.args[1])
         ctx.check(any(s.kind == "call" and s.b == nxt[0].bb for s in cv), "R05.2", ["writer", "counter-of-same-raw-sample"],
                   "the counter pushed does not come from this iteration's raw sample", pc.line())
+    # alignment of the per-kind count vectors with time_samples: for every recorded sample, a count is pushed for a kind
+    # iff that kind uses input counts - the decision never depends on the VALUE counted (a sample whose inputs count 0
+    # still gets its entry, or every later index would shift)
+    from lib.symexpr import Sym
+    SYW = Sym(w, site_args=False)
+    kl = w.innermost_loop(pc.bb)
+    if ctx.check(kl is not None and lp is not None and kl["body"] < lp["body"], "R05.2", ["writer", "per-kind-loop"], "push_counter is not inside a per-kind loop nested in the per-sample loop", pc.line()):
+        bad = []
+        guards = []
+        for x, t in w.switches():
+            if x not in kl["body"]:
+                continue
+            reach_from = [pc.bb in w.reach([y], avoid=[kl["header"]]) for y in w.succ[x]]
+            if all(reach_from) or not any(reach_from):
+                continue
+            e = SYW.op(t["discr"])
+            while e[0] == "un" and e[1] == "Not":
+                e = e[2]
+            if e[0] == "site" and e[1] == "counter::collection::CounterCollection::uses_input_counts":
+                guards.append(x)
+            elif e[0] == "discr" and e[1][0] == "site" and e[1][1].endswith("::next"):
+                pass        # the loop's own exit test
+            else:
+                bad.append(w.where(x))
+        ctx.check(not bad and len(guards) == 1, "R05.2", ["writer", "count-pushed-iff-kind-uses-input-counts"],
+                  "whether a per-iteration count is pushed for a sample depends on %s (expected exactly one test: uses_input_counts(kind)); counts would no longer be index-aligned "
+                  "with time_samples" % (bad or "no uses_input_counts test"), pc.line())
+        ctx.check(w.once_per_iteration(kl["header"], lp) or all(w.dominates(kl["header"], l) for l in lp["latches"]), "R05.2", ["writer", "per-kind-loop-every-sample"],
+                  "the per-kind loop is skipped for some samples", w.where(kl["header"]))
 
 
 def _index_choice_guard(prog, b, cc):
